@@ -38,7 +38,8 @@ FailC15(c) ==
   IF ~Derivable(c.tokens) THEN <<"model.derivable", "derivable by Lang!Derivable", "not derivable">>   \* recogniser vs parser model
   ELSE IF ~mp.ok THEN <<"model.parse", "parsable by Lang!ParseAssertion", "no parse">>
   ELSE IF mp.ast # want THEN <<"model.ast", want, mp.ast>>          \* the spelling generator disagrees with the grammar model
-  ELSE IF c.outcome = "RTAMT" THEN <<>>                              \* rejected spelling: counted, not a wrong grouping
+  \* a spelling of the language - derivable, and grouped unambiguously by the precedence order - must be accepted
+  ELSE IF c.outcome = "RTAMT" THEN <<"spelling.rejected", "ok", c.outcome>>
   ELSE IF c.outcome # "ok" THEN <<"parse.outcome", "ok", c.outcome>>
   ELSE IF c.implKnown /\ c.implAst # want THEN <<"spelling.ast", want, c.implAst>>
   ELSE IF c.evalOut \notin ({"ok"} \cup ArithExc) THEN <<"spelling.eval", "ok", c.evalOut>>
